@@ -89,6 +89,17 @@ theorem immGood_step {s s' : ImmState} {e : ImmEv} (h : immStep s e = some s') (
     · simp at h; subst h
       exact ⟨fun f hf hp => g.final f (List.mem_of_mem_filter' hf) hp, fun f hf w hw => g.known f (List.mem_of_mem_filter' hf) w hw⟩
     · simp at h; subst h; exact g
+  | cleanList =>
+    simp only [immStep] at h
+    split at h
+    · simp at h; subst h; exact ⟨g.final, g.known⟩
+    · simp at h; subst h; exact g
+  | cleanRemove id m =>
+    simp only [immStep] at h
+    split at h
+    · simp at h; subst h
+      exact ⟨fun f hf hp => g.final f (List.mem_of_mem_filter' hf) hp, fun f hf w hw => g.known f (List.mem_of_mem_filter' hf) w hw⟩
+    · cases h
 
 theorem immGood_run : ∀ (es : List ImmEv) (s s' : ImmState), ImmGood s → immRun s es = some s' → ImmGood s' := by
   intro es
@@ -143,10 +154,11 @@ theorem imm_fetch_complete (es : List ImmEv) (s : ImmState) (h : immRun ImmState
 
 /-! ### a completed Store is what the next Fetch returns -/
 
-/-- every file is older than the clock -/
-def ClockGood (s : ImmState) : Prop := ∀ f ∈ s.files, f.mtime < s.clock
+/-- every file, and every package a cleaning still has on its list, is older than the clock -/
+def ClockGood (s : ImmState) : Prop := (∀ f ∈ s.files, f.mtime < s.clock) ∧ (∀ p ∈ s.pending, p.2 < s.clock)
 
-theorem clockGood_init : ClockGood ImmState.init := by intro f hf; simp [ImmState.init] at hf
+theorem clockGood_init : ClockGood ImmState.init :=
+  ⟨by intro f hf; simp [ImmState.init] at hf, by intro p hp; simp [ImmState.init] at hp⟩
 
 theorem clockGood_step {s s' : ImmState} {e : ImmEv} (h : immStep s e = some s') (g : ClockGood s) : ClockGood s' := by
   cases e with
@@ -157,39 +169,60 @@ theorem clockGood_step {s s' : ImmState} {e : ImmEv} (h : immStep s e = some s')
   | writePart id v k =>
     simp only [immStep] at h; split at h
     · simp at h; subst h
+      refine ⟨?_, fun p hp => by have := g.2 p hp; simp only; omega⟩
       intro f hf
       simp only [List.mem_cons] at hf
       rcases hf with rfl | hf
       · simp
-      · have := g f (List.mem_of_mem_filter' hf); simp only; omega
+      · have := g.1 f (List.mem_of_mem_filter' hf); simp only; omega
     · cases h
   | finishPart id v =>
     simp only [immStep] at h; split at h
     · simp at h; subst h
+      refine ⟨?_, fun p hp => by have := g.2 p hp; simp only; omega⟩
       intro f hf
       simp only [List.mem_cons] at hf
       rcases hf with rfl | hf
       · simp
-      · have := g f (List.mem_of_mem_filter' hf); simp only; omega
+      · have := g.1 f (List.mem_of_mem_filter' hf); simp only; omega
     · cases h
-  | failVerify id => simp only [immStep] at h; simp at h; subst h; exact fun f hf => g f (List.mem_of_mem_filter' hf)
+  | failVerify id =>
+    simp only [immStep] at h; simp at h; subst h
+    exact ⟨fun f hf => g.1 f (List.mem_of_mem_filter' hf), g.2⟩
   | rename id =>
     simp only [immStep] at h
     split at h
     · rename_i f hfind
       split at h
       · simp at h; subst h
+        refine ⟨?_, g.2⟩
         intro x hx
         simp only [List.mem_cons] at hx
         rcases hx with rfl | hx
-        · exact g f (List.mem_of_find?_eq_some hfind)
-        · exact g x (List.mem_of_mem_filter' hx)
+        · exact g.1 f (List.mem_of_find?_eq_some hfind)
+        · exact g.1 x (List.mem_of_mem_filter' hx)
       · cases h
     · cases h
   | clean =>
     simp only [immStep] at h; split at h
-    · simp at h; subst h; exact fun f hf => g f (List.mem_of_mem_filter' hf)
+    · simp at h; subst h; exact ⟨fun f hf => g.1 f (List.mem_of_mem_filter' hf), g.2⟩
     · simp at h; subst h; exact g
+  | cleanList =>
+    simp only [immStep] at h; split at h
+    · simp at h; subst h
+      refine ⟨g.1, ?_⟩
+      intro p hp
+      simp only at hp
+      rcases List.mem_append.1 hp with h1 | h1
+      · exact g.2 p h1
+      · rw [List.mem_map] at h1
+        obtain ⟨f, hf, rfl⟩ := h1
+        exact g.1 f (List.mem_of_mem_filter' hf)
+    · simp at h; subst h; exact g
+  | cleanRemove id m =>
+    simp only [immStep] at h; split at h
+    · simp at h; subst h; exact ⟨fun f hf => g.1 f (List.mem_of_mem_filter' hf), g.2⟩
+    · cases h
 
 theorem clockGood_run : ∀ (es : List ImmEv) (s s' : ImmState), ClockGood s → immRun s es = some s' → ClockGood s' := by
   intro es
@@ -239,7 +272,224 @@ theorem imm_store_then_fetch (es : List ImmEv) (s s1 s2 : ImmState) (id v : Nat)
     rw [newest_fold_keeps]
     · simp [unpacks]
     · intro x hx
-      exact cg x (hLmem x (List.mem_filter.1 hx).1)
+      exact cg.1 x (hLmem x (List.mem_filter.1 hx).1)
+  · cases h1
+
+/-! ### … and it stays what Fetch returns while cleanings run — as one step or as a listing followed by removals, interleaved
+    with anything else — until another Store completes -/
+
+/-- the package of a completed Store: it is there, it is the only file with its id, every other complete package is
+    older, and no cleaning has it on its list -/
+structure Kept (s : ImmState) (f0 : File) : Prop where
+  mem : f0 ∈ s.files
+  final : f0.part = false
+  onlyId : ∀ x ∈ s.files, x.id = f0.id → x = f0
+  older : ∀ x ∈ s.files, x.part = false → x ≠ f0 → x.mtime < f0.mtime
+  notPending : (f0.id, f0.mtime) ∉ s.pending
+
+theorem fold_newer_kept (f0 : File) : ∀ (l : List File) (acc : Option File),
+    (∀ x ∈ l, x = f0 ∨ x.mtime < f0.mtime) →
+    (acc = some f0 ∨ ((acc = none ∨ ∃ g, acc = some g ∧ g.mtime < f0.mtime) ∧ f0 ∈ l)) →
+    l.foldl newer acc = some f0 := by
+  intro l
+  induction l with
+  | nil =>
+    intro acc _ h
+    rcases h with h | ⟨_, h⟩
+    · simpa using h
+    · cases h
+  | cons x l ih =>
+    intro acc hl hacc
+    have hl' : ∀ y ∈ l, y = f0 ∨ y.mtime < f0.mtime := fun y hy => hl y (List.mem_cons_of_mem _ hy)
+    have hx := hl x List.mem_cons_self
+    simp only [List.foldl_cons]
+    apply ih _ hl'
+    rcases hacc with h | ⟨h, hm⟩
+    · subst h
+      left
+      simp only [newer]
+      rcases hx with rfl | hx
+      · simp
+      · have : ¬ f0.mtime < x.mtime := by omega
+        simp [this]
+    · rcases hx with rfl | hx
+      · left
+        rcases h with rfl | ⟨g, rfl, hg⟩
+        · rfl
+        · simp [newer, hg]
+      · have hml : f0 ∈ l := by
+          rcases List.mem_cons.1 hm with e | e
+          · subst e; omega
+          · exact e
+        right
+        refine ⟨Or.inr ?_, hml⟩
+        rcases h with rfl | ⟨g, rfl, hg⟩
+        · exact ⟨x, rfl, hx⟩
+        · simp only [newer]
+          split
+          · exact ⟨x, rfl, hx⟩
+          · exact ⟨g, rfl, hg⟩
+
+theorem newest_of_kept {s : ImmState} {f0 : File} (k : Kept s f0) : newest s.files = some f0 := by
+  unfold newest
+  apply fold_newer_kept f0
+  · intro x hx
+    have := List.mem_filter.1 hx
+    by_cases e : x = f0
+    · exact Or.inl e
+    · exact Or.inr (k.older x this.1 (by simpa using this.2) e)
+  · right
+    exact ⟨Or.inl rfl, List.mem_filter.2 ⟨k.mem, by simp [k.final]⟩⟩
+
+/-- the step is not the completion (rename) of a Store -/
+def NoRename (e : ImmEv) : Prop := ∀ i, e ≠ .rename i
+
+theorem kept_step {s s' : ImmState} {e : ImmEv} {f0 : File} (h : immStep s e = some s') (hn : NoRename e)
+    (k : Kept s f0) : Kept s' f0 := by
+  cases e with
+  | beginStore id v =>
+    simp only [immStep] at h; split at h
+    · cases h
+    · simp at h; subst h; exact ⟨k.mem, k.final, k.onlyId, k.older, k.notPending⟩
+  | writePart id v kk =>
+    simp only [immStep] at h; split at h
+    · rename_i hc
+      simp at h; subst h
+      have hid : id ≠ f0.id := by
+        intro e
+        have h2 := hc.2
+        simp only [Bool.not_eq_true', List.any_eq_false] at h2
+        have := h2 f0 k.mem
+        simp [e, k.final] at this
+      refine ⟨?_, k.final, ?_, ?_, k.notPending⟩
+      · exact List.mem_cons_of_mem _ (List.mem_filter.2 ⟨k.mem, by simp; exact fun e => hid e.symm⟩)
+      · intro x hx hxi
+        rcases List.mem_cons.1 hx with rfl | hx
+        · simp only at hxi; exact absurd hxi hid
+        · exact k.onlyId x (List.mem_of_mem_filter' hx) hxi
+      · intro x hx hp hne
+        rcases List.mem_cons.1 hx with rfl | hx
+        · simp at hp
+        · exact k.older x (List.mem_of_mem_filter' hx) hp hne
+    · cases h
+  | finishPart id v =>
+    simp only [immStep] at h; split at h
+    · rename_i hc
+      simp at h; subst h
+      have hid : id ≠ f0.id := by
+        intro e
+        have h2 := hc.2
+        rw [List.any_eq_true] at h2
+        obtain ⟨g, hg, hgc⟩ := h2
+        simp only [decide_eq_true_eq] at hgc
+        have := k.onlyId g hg (by rw [hgc.1, e])
+        rw [this, k.final] at hgc; cases hgc.2
+      refine ⟨?_, k.final, ?_, ?_, k.notPending⟩
+      · exact List.mem_cons_of_mem _ (List.mem_filter.2 ⟨k.mem, by simp; exact fun e => hid e.symm⟩)
+      · intro x hx hxi
+        rcases List.mem_cons.1 hx with rfl | hx
+        · simp only at hxi; exact absurd hxi hid
+        · exact k.onlyId x (List.mem_of_mem_filter' hx) hxi
+      · intro x hx hp hne
+        rcases List.mem_cons.1 hx with rfl | hx
+        · simp at hp
+        · exact k.older x (List.mem_of_mem_filter' hx) hp hne
+    · cases h
+  | failVerify id =>
+    simp only [immStep] at h; simp at h; subst h
+    refine ⟨List.mem_filter.2 ⟨k.mem, by simp [k.final]⟩, k.final, ?_, ?_, k.notPending⟩
+    · exact fun x hx hxi => k.onlyId x (List.mem_of_mem_filter' hx) hxi
+    · exact fun x hx hp hne => k.older x (List.mem_of_mem_filter' hx) hp hne
+  | rename id => exact absurd rfl (hn id)
+  | clean =>
+    simp only [immStep] at h
+    rw [newest_of_kept k] at h
+    simp at h; subst h
+    refine ⟨List.mem_filter.2 ⟨k.mem, by simp⟩, k.final, ?_, ?_, k.notPending⟩
+    · exact fun x hx hxi => k.onlyId x (List.mem_of_mem_filter' hx) hxi
+    · exact fun x hx hp hne => k.older x (List.mem_of_mem_filter' hx) hp hne
+  | cleanList =>
+    simp only [immStep] at h
+    rw [newest_of_kept k] at h
+    simp at h; subst h
+    refine ⟨k.mem, k.final, k.onlyId, k.older, ?_⟩
+    intro hp
+    simp only at hp
+    rcases List.mem_append.1 hp with h1 | h1
+    · exact k.notPending h1
+    · rw [List.mem_map] at h1
+      obtain ⟨x, hx, hxe⟩ := h1
+      have hxf := List.mem_filter.1 hx
+      simp only [Prod.mk.injEq] at hxe
+      have h2 := hxf.2
+      simp only [Bool.and_eq_true, Bool.not_eq_true', bne_iff_ne, ne_eq] at h2
+      exact h2.2 hxe.1
+  | cleanRemove id m =>
+    simp only [immStep] at h; split at h
+    · rename_i hin
+      simp at h; subst h
+      refine ⟨List.mem_filter.2 ⟨k.mem, ?_⟩, k.final, ?_, ?_, k.notPending⟩
+      · by_cases hb : f0.id = id ∧ f0.mtime = m
+        · exfalso
+          apply k.notPending
+          rw [hb.1, hb.2]; exact hin
+        · by_cases e1 : f0.id = id
+          · by_cases e2 : f0.mtime = m
+            · exact absurd ⟨e1, e2⟩ hb
+            · simp [e2]
+          · simp [e1]
+      · exact fun x hx hxi => k.onlyId x (List.mem_of_mem_filter' hx) hxi
+      · exact fun x hx hp hne => k.older x (List.mem_of_mem_filter' hx) hp hne
+    · cases h
+
+theorem kept_run {f0 : File} : ∀ (es : List ImmEv) (s s' : ImmState), (∀ e ∈ es, NoRename e) → Kept s f0 →
+    immRun s es = some s' → Kept s' f0 := by
+  intro es
+  induction es with
+  | nil => intro s s' _ k h; simp only [immRun, Option.some.injEq] at h; subst h; exact k
+  | cons e es ih =>
+    intro s s' hn k h
+    simp only [immRun] at h
+    split at h
+    · cases h
+    · rename_i s1 hs1
+      exact ih s1 s' (fun e' he' => hn e' (List.mem_cons_of_mem _ he')) (kept_step hs1 (hn e List.mem_cons_self) k) h
+
+/-- STORE THEN FETCH, with cleanings in between: after any history, once a Store has completed, whatever happens next short
+    of another Store completing — cleanings in one step or as a listing followed by removals in any interleaving, other
+    Stores uploading, failing, beginning — the next Fetch returns the version of that Store -/
+theorem imm_store_survives (es es' : List ImmEv) (s s1 s2 s3 : ImmState) (id v : Nat)
+    (h : immRun ImmState.init es = some s) (h1 : immStep s (.finishPart id v) = some s1)
+    (h2 : immStep s1 (.rename id) = some s2) (hn : ∀ e ∈ es', NoRename e) (h3 : immRun s2 es' = some s3) :
+    immFetch s3 = some (.complete v) := by
+  have cg := clockGood_run es _ _ clockGood_init h
+  simp only [immStep] at h1
+  split at h1
+  · simp at h1; subst h1
+    simp only [immStep] at h2
+    simp [List.find?_cons] at h2
+    subst h2
+    have k0 : Kept (ImmState.mk (({ id := id, part := false, content := .complete v, mtime := s.clock } : File) ::
+            List.filter (fun x => !decide (x.id = id)) s.files) (s.clock + 1) s.stored s.pending)
+        ({ id := id, part := false, content := .complete v, mtime := s.clock } : File) := by
+      refine ⟨List.mem_cons_self, rfl, ?_, ?_, ?_⟩
+      · intro x hx hxi
+        rcases List.mem_cons.1 hx with e | hx
+        · exact e
+        · have := (List.mem_filter.1 hx).2
+          simp only at hxi
+          simp [hxi] at this
+      · intro x hx _ hne
+        rcases List.mem_cons.1 hx with e | hx
+        · exact absurd e hne
+        · exact cg.1 x (List.mem_filter.1 hx).1
+      · intro hp
+        have := cg.2 _ hp
+        simp at this
+    have k3 := kept_run es' _ s3 hn k0 h3
+    unfold immFetch
+    rw [newest_of_kept k3]
+    simp [unpacks]
   · cases h1
 
 /-! ### mutable -/
